@@ -160,6 +160,55 @@ func (h *BuilderHandler) end() {
 	}
 }
 
+// GenBuilderHandler is BuilderHandler over gen.Builder.
+type GenBuilderHandler struct {
+	B    gen.Builder
+	key  string
+	has  bool
+	Err  error
+	Docs []any
+	deep int
+}
+
+func (h *GenBuilderHandler) k() []string {
+	if h.has {
+		h.has = false
+		return []string{h.key}
+	}
+	return nil
+}
+func (h *GenBuilderHandler) note(err error) {
+	if err != nil && h.Err == nil {
+		h.Err = err
+	}
+}
+func (h *GenBuilderHandler) val(v gen.Node) {
+	if h.deep == 0 {
+		h.Docs = append(h.Docs, FromGen(v))
+		return
+	}
+	h.note(h.B.Value(v, h.k()...))
+}
+func (h *GenBuilderHandler) Null()           { h.val(nil) }
+func (h *GenBuilderHandler) Bool(b bool)     { h.val(gen.Bool(b)) }
+func (h *GenBuilderHandler) Int(i int64)     { h.val(gen.Int(i)) }
+func (h *GenBuilderHandler) Float(f float64) { h.val(gen.Float(f)) }
+func (h *GenBuilderHandler) Number(s string) { h.val(gen.Big(s)) }
+func (h *GenBuilderHandler) String(s string) { h.val(gen.String(s)) }
+func (h *GenBuilderHandler) Key(k string)    { h.key, h.has = k, true }
+func (h *GenBuilderHandler) ObjectStart()    { h.note(h.B.Object(h.k()...)); h.deep++ }
+func (h *GenBuilderHandler) ArrayStart()     { h.note(h.B.Array(h.k()...)); h.deep++ }
+func (h *GenBuilderHandler) ObjectEnd()      { h.end() }
+func (h *GenBuilderHandler) ArrayEnd()       { h.end() }
+func (h *GenBuilderHandler) end() {
+	h.deep--
+	h.B.Pop()
+	if h.deep == 0 {
+		h.Docs = append(h.Docs, FromGen(h.B.Result()))
+		h.B.Reset()
+	}
+}
+
 // FromGen converts a gen tree to simple values with the harness's own
 // converter (not gen.Node.Simplify).
 func FromGen(n gen.Node) any {
@@ -219,6 +268,24 @@ var All = []Dec{
 	}},
 	{"oj.Tokenizer.Load+collector", "json", true, func(x []byte, pl jsongen.Plan) (any, error) {
 		return tok(func(h oj.TokenHandler) error { t := oj.Tokenizer{}; t.OnlyOne = true; return t.Load(pl.Reader(x), h) })
+	}},
+	{"oj.Tokenizer.Parse+gen.Builder", "json", false, func(x []byte, _ jsongen.Plan) (any, error) {
+		h := &GenBuilderHandler{}
+		t := oj.Tokenizer{}
+		t.OnlyOne = true
+		if err := t.Parse(x, h); err != nil {
+			return nil, err
+		}
+		if h.Err != nil {
+			return nil, h.Err
+		}
+		switch len(h.Docs) {
+		case 0:
+			return nil, nil
+		case 1:
+			return h.Docs[0], nil
+		}
+		return nil, fmt.Errorf("builder delivered %d documents", len(h.Docs))
 	}},
 	{"oj.Tokenizer.Parse+alt.Builder", "json", false, func(x []byte, _ jsongen.Plan) (any, error) {
 		h := &BuilderHandler{}
